@@ -230,6 +230,10 @@ type uMacroCallInfo struct {
 // top-level invocation can trigger.
 const maxMacroExpansions = 10000
 
+// maxMacroArgsSize bounds the size (in inline elements) of the arguments of a
+// user macro invocation.
+const maxMacroArgsSize = 10000
+
 // User macro definition information
 type uMacroDefInfo struct {
 	file   string // file where macro is defined
